@@ -246,6 +246,13 @@ pub fn check_read(rep: &mut Report, stream: &[u8], script: &[Step], max_len: usi
 // ---------------------------------------------------------------------------
 // writer
 
+struct Nothing;
+impl<C> minicbor::Encode<C> for Nothing {
+    fn encode<W: minicbor::encode::Write>(&self, _: &mut minicbor::Encoder<W>, _: &mut C) -> Result<(), minicbor::encode::Error<W::Error>> {
+        Ok(())
+    }
+}
+
 struct Refuses;
 impl<C> minicbor::Encode<C> for Refuses {
     fn encode<W: minicbor::encode::Write>(&self, e: &mut minicbor::Encoder<W>, _: &mut C) -> Result<(), minicbor::encode::Error<W::Error>> {
@@ -320,6 +327,17 @@ pub fn check_write(rep: &mut Report, seed: u64, i: u64) {
     let n = if big { 3 + rng.below(4) as usize } else { 1 + rng.below(6) as usize };
     let max_len = if big { *rng.pick(&[100usize, 512 * 1024, 2 << 20]) } else { *rng.pick(&[8usize, 16, 64, 512 * 1024]) };
     let script: Vec<Step> = (0..rng.below(40)).map(|_| if rng.chance(1, 5) { Step::Interrupted } else if big { Step::Deliver(*rng.pick(&[4096usize, 65_536, 100_000]) + rng.below(3) as usize) } else { Step::Deliver(1 + rng.below(9) as usize) }).collect();
+    // one sequence in 6 has a storm of interrupted calls somewhere (retried however long it lasts)
+    let script: Vec<Step> = if i % 6 == 3 {
+        let at = rng.usize_below(script.len() + 1);
+        let storm = *rng.pick(&[16usize, 17, 40, 129, 300]);
+        let mut sc = script[..at].to_vec();
+        sc.extend(std::iter::repeat(Step::Interrupted).take(storm));
+        sc.extend_from_slice(&script[at..]);
+        sc
+    } else {
+        script
+    };
     let rp = vec!["c14".into(), "--seed".into(), seed.to_string(), "--replay".into(), "write".into(), i.to_string()];
     let r = mon::guarded(|| {
         let sink = ScriptWrite { out: Vec::new(), script: &script, i: 0 };
@@ -337,6 +355,17 @@ pub fn check_write(rep: &mut Report, seed: u64, i: u64) {
                     }
                     if w.writer().out.len() != before {
                         return Err("a value that failed to encode put bytes into the sink".into());
+                    }
+                }
+                1 if i % 3 == 0 => {
+                    // a value whose Encode impl writes no bytes: a frame of length 0, delivered like any other
+                    match w.write(Nothing) {
+                        Ok(0) => {}
+                        other => return Err(format!("write of a value that encodes to no bytes returned {:?}", other.map_err(|e| e.to_string()))),
+                    }
+                    frame(&[], &mut want);
+                    if w.writer().out != want {
+                        return Err(format!("after a zero-length frame the sink holds {} but the frames written so far are {}", hex(&w.writer().out[..w.writer().out.len().min(100)]), hex(&want[..want.len().min(100)])));
                     }
                 }
                 _ => {
@@ -483,6 +512,41 @@ pub fn run(a: &Args, rep: &mut Report) {
     }
     rep.enumerated(n);
     rep.count_n("reader/interrupted placements (exhaustive 0-2 repetitions per read)", n);
+    // 2b. Interrupted storms: `Interrupted` is retried however often it occurs.  One-byte reads; a run
+    //     of 3 .. 300 interrupted calls in front of the read at every byte offset (inside a prefix,
+    //     inside a payload, in front of the end of the stream), and runs of 4 .. 9 in front of *every*
+    //     read (so that one prefix sees several dozen in total)
+    let mut n = 0u64;
+    for (k, s) in streams.iter().enumerate() {
+        if !a.mine(k as u64 + 5) {
+            continue;
+        }
+        let l = s.len();
+        for storm in [3usize, 15, 16, 17, 33, 64, 65, 300] {
+            for at in 0..=l {
+                let mut script = Vec::new();
+                for j in 0..=l {
+                    if j == at {
+                        script.extend(std::iter::repeat(Step::Interrupted).take(storm));
+                    }
+                    script.push(Step::Deliver(1));
+                }
+                check_read(rep, s, &script, 64);
+                n += 1;
+            }
+        }
+        for each in [4usize, 5, 9] {
+            let mut script = Vec::new();
+            for _ in 0..=l {
+                script.extend(std::iter::repeat(Step::Interrupted).take(each));
+                script.push(Step::Deliver(1));
+            }
+            check_read(rep, s, &script, 64);
+            n += 1;
+        }
+    }
+    rep.enumerated(n);
+    rep.count_n("reader/interrupted storms (3..300 in a row at every offset; 4..9 before every read)", n);
     // 3. random long streams
     let nrand: u64 = if a.thorough() { 800_000 } else { 80_000 };
     for i in 0..nrand {
